@@ -1109,8 +1109,8 @@ class Run:
             self.ctx.cell('avoided:vol-read-after-phase-change-at-same-TP(nudged T)')
 
 
-OPS = [('write', 8), ('total', 3), ('T', 2), ('P', 2), ('phase', 3), ('phases', 3), ('link', 3), ('unlink', 2),
-       ('copy_like', 2), ('reset_thermo', 1), ('proxy', 2), ('empty', 1), ('dim_error', 2), ('read_key', 2), ('sub', 1),
+OPS = [('write', 8), ('total', 3), ('T', 2), ('P', 2), ('phase', 3), ('phases', 3), ('link', 5), ('unlink', 2),
+       ('copy_like', 2), ('reset_thermo', 2), ('proxy', 2), ('empty', 1), ('dim_error', 2), ('read_key', 2), ('sub', 1),
        ('get_property', 2), ('assign', 3), ('reset_flow', 3)]
 OP_LIST = [n for n, w in OPS for _ in range(w)]
 STRUCT = {'T', 'P', 'phase', 'phases', 'link', 'unlink', 'copy_like', 'reset_thermo', 'proxy'}
